@@ -171,6 +171,8 @@ def generate(seed, run, tier):
                     ev["op"] = "set_fault"
                     ev["kind"] = frng.choice(choices)
                     ev["k"] = frng.randint(0, len(ev["key"]))
+                    # the caller retries the failing call at once, 0-2 times
+                    ev["retry"] = frng.choice([0, 0, 1, 2])
                     ev.pop("form", None)
             events.append(ev)
         elif kind == "R":
@@ -415,22 +417,25 @@ class Run(object):
         elif op == "set_fault":
             key = tuple(ev["key"])
             k = min(ev["k"], len(key))
-            self.mutation_begins()
-            outcome = "returned"
-            try:
-                self.trie[faulty_key(key, k, ev["kind"])] = dec_value(ev["val"])
-            except SimFault:
-                outcome = "SimFault"
-            except (TypeError, KeyError, ValueError):
-                outcome = "rejected"
-            stats.event("%s|set_fault|%s|%s|%d|%s" % (ev.get("c"), canon(ev["key"]), ev["kind"], k, outcome))
-            stats.fault(ev["kind"])
-            if ev["kind"] == "key_iter_raises":
-                # the caller's own exception must come back to the caller
-                self.expect("failed_assignment_propagates", "set_fault", outcome, "SimFault", {"key": ev["key"], "k": k})
-            elif outcome == "returned":
-                raise HarnessError("an unhashable token was accepted")
-            # a failed assignment assigns nothing: the model is unchanged
+            # a failed assignment assigns nothing: live iterators stay judged
+            for attempt in range(1 + ev.get("retry", 0)):
+                outcome = "returned"
+                try:
+                    self.trie[faulty_key(key, k, ev["kind"])] = dec_value(ev["val"])
+                except SimFault:
+                    outcome = "SimFault"
+                except (TypeError, KeyError, ValueError):
+                    outcome = "rejected"
+                stats.event("%s|set_fault|%s|%s|%d|%s|attempt %d" % (ev.get("c"), canon(ev["key"]), ev["kind"], k, outcome, attempt))
+                stats.fault(ev["kind"])
+                if attempt:
+                    stats.probe("failed_call_retried")
+                if ev["kind"] == "key_iter_raises":
+                    # the caller's own exception must come back to the caller
+                    self.expect("failed_assignment_propagates", "set_fault", outcome, "SimFault", {"key": ev["key"], "k": k, "attempt": attempt})
+                elif outcome == "returned":
+                    raise HarnessError("an unhashable token was accepted")
+            # the model is unchanged
             self.sweep("set_fault")
         elif op in ("get", "get_default", "getitem", "lmpv"):
             key = tuple(ev["key"])
@@ -553,6 +558,10 @@ def shrink_event(config, ev):
         e = dict(ev)
         e["k"] = ev["k"] - 1
         out.append(e)
+    if ev.get("retry"):
+        e = dict(ev)
+        e["retry"] = ev["retry"] - 1
+        out.append(e)
     return out
 
 
@@ -635,6 +644,7 @@ PROBES = [
     "iterator_overtaken_by_mutation",
     "iter_cancelled",
     "second_instance_in_process",
+    "failed_call_retried",
 ]
 NO_SEAM = (
     "TrieDict has no I/O, clock, thread or network seam: message loss, partitions, clock skew, disk and "
